@@ -51,6 +51,18 @@ let init () =
   register "flac_save_obj" (fun [f; bs; vendor; cs; mode; did3] ->
     let o = opts_of mode did3 in
     save_result (flac_save_obj (bytes_of_hex f) (blocks_of bs) (tags_of vendor cs) o));
+  (* flac_sess_step <file> <obj blocks | none> <reload|addtags|save|delete|moddelete> <vendor|none> <comments> <mode> *)
+  register "flac_sess_step" (fun [f; ob; op; vendor; cs; mode] ->
+    let s = { ss_file = bytes_of_hex f; ss_obj = (if ob = "none" then None else Some (blocks_of ob)) } in
+    let o = match op with
+      | "reload" -> SReload
+      | "addtags" -> SAddTags (bytes_of_hex vendor)
+      | "save" -> SSave (tags_of vendor cs, (opts_of mode "0").o_cb)
+      | "delete" -> SDelete
+      | "moddelete" -> SModDelete
+      | _ -> failwith "session op" in
+    let s' = sess_step s o in
+    "ok " ^ hex_of_bytes s'.ss_file ^ " " ^ (match s'.ss_obj with None -> "none" | Some bs -> string_of_blocks bs));
   register "flac_delete" (fun [f] -> bytes_result (flac_delete (bytes_of_hex f)));
   register "flac_delete_obj" (fun [f; bs] -> bytes_result (flac_delete_obj (bytes_of_hex f) (blocks_of bs)));
   register "flac_load" (fun [f] ->
